@@ -614,14 +614,20 @@ impl Wal {
 
         segment
             .writer
+            .flush()
+            .wrap_err("failed to flush WAL segment before truncate")?;
+
+        segment
+            .writer
             .get_mut()
             .set_len(0)
             .wrap_err("failed to truncate WAL segment file")?;
 
         segment
             .writer
-            .flush()
-            .wrap_err("failed to flush WAL segment after truncate")?;
+            .get_mut()
+            .seek(SeekFrom::Start(0))
+            .wrap_err("failed to rewind WAL segment after truncate")?;
 
         segment.offset = 0;
 
